@@ -190,6 +190,11 @@ def make_fields_pub(text):
                 depth += 1
             elif t.kind == "punct" and t.text in rl.CLOSE:
                 depth -= 1
+            # generic arguments of a field type (`FnvHashMap<K, V>`): their commas do not end the field
+            elif t.kind == "punct" and t.text == "<" and not expect_field:
+                depth += 1
+            elif t.kind == "punct" and t.text in (">", ">>") and not expect_field:
+                depth -= len(t.text)
             if depth == 0 and expect_field and t.kind == "ident":
                 if t.text != "pub":
                     out.append("pub ")
